@@ -332,4 +332,27 @@ example : (rollWoD 10 2 2 10 8 true 1 [] (some 5)).map (fun o => o.map (fun x =>
 example : (rollWoD 10 2 4 10 8 true (-1) [] (some 5)).map (fun o => o.map (fun x => (x.1.charged, x.1.allRoll, x.1.over))) =
     some (some (4, 4, false)) := by decide
 
+/-! ### calls in progress: at most `maxCallDepth`, with or without an operation budget -/
+
+/-- at the cap a call is refused before anything of it runs (function or computed value, whatever the budget configuration) -/
+theorem call_depth_cap {α} (g : G) (k : G → G × Res α) (h : g.calls ≥ maxCallDepth) :
+    withCall g k = (g, .err "调用层数过多") := by
+  simp [withCall, h]
+
+/-- a call that is admitted runs with the count one higher … -/
+theorem call_counts_itself {α} (g : G) (k : G → G × Res α) (h : ¬ g.calls ≥ maxCallDepth) :
+    (withCall g k).2 = (k { g with calls := g.calls + 1 }).2 := by
+  simp [withCall, h]
+
+/-- … and however it ends — value, error, fault — the count is what it was before the call: the cap bounds the NESTING, not the number of calls -/
+theorem calls_restored {α} (g : G) (k : G → G × Res α) : (withCall g k).1.calls = g.calls := by
+  unfold withCall
+  split <;> rfl
+
+theorem funcInvoke_depth_cap (sub : SubRun) (g : G) (c a : Nat) (args : List Val) (h : g.calls ≥ maxCallDepth) :
+    funcInvoke sub g c a args = (g, .err "调用层数过多") := call_depth_cap g _ h
+
+theorem computedExecute_depth_cap (sub : SubRun) (g : G) (c a : Nat) (h : g.calls ≥ maxCallDepth) :
+    computedExecute sub g c a = (g, .err "调用层数过多") := call_depth_cap g _ h
+
 end DS.Props.C07
